@@ -973,13 +973,22 @@ class Analyzer:
             S = self.slice_of_iter(fn, t["args"][0], st)
             if S:
                 post.append(("optf", "Some", [(("v", D + ".@Some.0"), ("#", S), -1), (Z, ("v", D + ".@Some.0"), 0)], S))
+        elif name_is("Iterator::count") and nargs == 1 and dty == "usize":
+            # counting what an adaptor chain over a slice yields gives at most the slice's length
+            S = self.slice_of_iter(fn, t["args"][0], st)
+            if S:
+                post.append(("le_len", S))
         elif name_is("Option::<T>::unwrap_or") and nargs == 2 and A[0] and self.is_int_ty(dty):
             some = st.copy()
             fs = some.optf.get((A[0], "Some"))
             if fs:
                 self.apply_facts(some, fs)
             post.append(("joinvals", [(some, (("v", A[0] + ".@Some.0"), 0)), (st.copy(), T[1])]))
-        elif name_is("<impl [T]>::first", "<impl [T]>::last", "<impl [T]>::split_first", "<impl [T]>::split_last") and A[0]:
+        elif name_is("<impl [T]>::split_first", "<impl [T]>::split_last") and A[0]:
+            # Some((x, rest)): the slice was not empty and rest is one element shorter
+            r_ = ("#", D + ".@Some.0.1")
+            post.append(("optf", "Some", [(Z, ("#", A[0]), -1), (r_, ("#", A[0]), -1), (("#", A[0]), r_, 1)], A[0]))
+        elif name_is("<impl [T]>::first", "<impl [T]>::last") and A[0]:
             post.append(("optf", "Some", [(Z, ("#", A[0]), -1)], A[0]))
         elif name_is("<impl [T]>::get") and nargs == 2 and A[0] and t["argtys"][1] == "usize" and T[1]:
             x, cx = T[1]
@@ -1100,8 +1109,13 @@ class Analyzer:
             e = df.operand_expr(fn, t["args"][1])
             if isinstance(e, tuple) and e and e[0] == "closure" and e[1] in self.summaries and self.summaries[e[1]] is not None:
                 post.append(("closure_summary", e[1], A[1]))
-        elif rp in self.summaries and self.summaries[rp] is not None:
+        elif rp in self.summaries and self.summaries[rp] is not None and not (c.get("self_closure") and q.startswith("core::ops::function::Fn")):
             post.append(("summary", rp))
+        elif c.get("self_closure") in self.summaries and self.summaries[c.get("self_closure")] is not None and nargs == 2 and \
+                q.startswith("core::ops::function::Fn") and A[0] and A[1]:
+            # a local closure called directly: f(a, b) is Fn::call(&f, (a, b)); its summary speaks of (env, a, b)
+            ncl = self.prog.fns[c["self_closure"]].arg_count if c["self_closure"] in self.prog.fns else 0
+            post.append(("closure_call", c["self_closure"], [A[0]] + ["%s.%d" % (A[1], i) for i in range(max(0, ncl - 1))]))
         # havoc what is mutably borrowed by the call
         keep_end = {p[1] for p in post if p[0] == "range_next"}
         for i, aty in enumerate(t["argtys"]):
@@ -1213,12 +1227,20 @@ class Analyzer:
                         st.eq(("#", D), ("v", R + ".end"), -cst)
                     else:
                         st.add(("#", D), ("v", R + ".end"), 0)
+            elif kind == "le_len":
+                self.bound_len(st, p[1])
+                st.add(("v", D), ("#", p[1]), 0)
             elif kind == "split_at":
                 S, (xm, cm) = p[1], p[2]
                 self.bound_len(st, D + ".0")
                 self.bound_len(st, D + ".1")
                 st.eq(("#", D + ".0"), xm, cm)
                 st.add(("#", D + ".1"), ("#", S), 0)
+                # the two halves make up the whole: len(s) = len(left) + len(right)
+                lo = st.lb(("#", D + ".0"))
+                if lo is not None and lo > 0:
+                    st.add(("#", D + ".1"), ("#", S), -lo)
+                st.add_sum(("#", S), ("#", D + ".0"), ("#", D + ".1"), 0)
             elif kind == "try":
                 R = p[1]
                 src = pre["try"]
@@ -1278,6 +1300,8 @@ class Analyzer:
                     self.apply_summary(fn, st, t, "%s.@%s.0" % (D, var), [C, "%s.@%s.0" % (R, var)], [None, None], self.summaries[cid])
                     if st.tag.get(R):
                         st.tag[D] = st.tag[R]
+            elif kind == "closure_call":
+                self.apply_summary(fn, st, t, D, p[2], [None] * len(p[2]), self.summaries[p[1]])
             elif kind == "closure_summary":
                 self.apply_summary(fn, st, t, D, [p[2]], [None], self.summaries[p[1]])
             elif kind == "alias":
